@@ -19,6 +19,13 @@ CLAIMED = {
          "SHACL serialiser emits are extracted from its source and compared with the reference mapping of the ShExC rendering; "
          "table rows, emission-loop totality, normaliser agreement, no mutation of the shared model", "4 C11",
          "decision/emission-table extraction by abstract evaluation of the AST, constant-table comparison, value-flow slices (R-TABLE, R-CONST, R-EMIT, R-LOOP, R-FLOW, R-PURE)"),
+ "C12": ("necessary structural conditions of threshold monotonicity decided for all graphs and thresholds: the threshold's only sinks are "
+         "the range check and boundary-inclusive candidate filters on the direct result of _compute_frequency, it is forwarded explicitly, "
+         "never reaches the later stages, filtering precedes grouping; decision table of the useless-'+' predicate. Key preservation by the "
+         "merge is not decided", "4 C12", "value-flow (taint) analysis with source/sink audit, comparison-shape and call-site forwarding lints, twin comparison, decision table (R-FLOW, R-CMP, R-PLUMB, R-ORDER, R-TWIN, R-TABLE)"),
+ "C02": ("necessary structural conditions of 'exactly the features at or above the threshold': filter shape and placement at every candidate "
+         "site, total candidate/grouping loops, select-before-assign, removal decision tables, sibling agreement. That grouping keeps one "
+         "survivor per key is not decided", "4 C02", "comparison-shape lint over value-flow, loop-totality and ordering lints, decision tables by abstract evaluation, twin comparison (R-CMP, R-PLUMB, R-LOOP, R-ORDER, R-TABLE, R-TWIN)"),
 }
 NA_REASON = {
  "C08": "relates the outputs of different parsers (rdflib readers, two hand-written scanners, TSV splitter, decompressors) on "
